@@ -8,7 +8,7 @@ from pathlib import Path
 def _jaqal_find_spec_relative(mod_name, search_path):
     # Our top preference is a module in a directory:
     try_directory = search_path / mod_name
-    if try_directory.is_dir():
+    if (try_directory / "__init__.py").is_file():
         # This does not handle namespace packages
         spec = importlib.util.spec_from_file_location(
             mod_name, try_directory / "__init__.py"
@@ -37,6 +37,9 @@ def _jaqal_find_spec_relative(mod_name, search_path):
 
     try_eggs = []
     egg_regexp = re.compile(f"{mod_name}-([^-]*)-(.*)\\.egg")
+
+    if not Path(search_path).is_dir():
+        raise ImportError(f"Unable to find module {mod_name}")
 
     for candidate in os.listdir(search_path):
         egg_version = egg_regexp.match(candidate)
